@@ -337,16 +337,37 @@ impl<'a> Norm<'a> {
     }
 
     fn letsplit_expr(&mut self, e: &mut Expr, pre: &mut Vec<Stmt>) {
-        if let Expr::MethodCall(mc) = e {
-            if self.spec.letsplit.contains(&mc.method.to_string()) && matches!(&*mc.receiver, Expr::MethodCall(_) | Expr::Call(_)) {
-                self.letsplit_expr(&mut mc.receiver, pre);
-                self.split_no += 1;
-                let t = Ident::new(&format!("__vx_t{}", self.split_no), Span::call_site());
-                let r = &mc.receiver;
-                pre.push(parse_quote!(let mut #t = #r;));
-                mc.receiver = Box::new(parse_quote!(#t));
-                self.bump("R-LETSPLIT");
+        match e {
+            Expr::Try(t) => self.letsplit_expr(&mut t.expr, pre),
+            Expr::Await(t) => self.letsplit_expr(&mut t.base, pre),
+            Expr::Paren(t) => self.letsplit_expr(&mut t.expr, pre),
+            Expr::MethodCall(mc) => {
+                if !self.spec.letsplit.contains(&mc.method.to_string()) { return; }
+                let simple = |x: &Expr| matches!(x, Expr::Path(_) | Expr::Field(_) | Expr::Lit(_));
+                if !simple(&mc.receiver) {
+                    self.letsplit_expr(&mut mc.receiver, pre);
+                    self.split_no += 1;
+                    let t = Ident::new(&format!("__vx_t{}", self.split_no), Span::call_site());
+                    let r = &mc.receiver;
+                    pre.push(parse_quote!(let mut #t = #r;));
+                    mc.receiver = Box::new(parse_quote!(#t));
+                    self.bump("R-LETSPLIT");
+                }
+                // `&mut CALL` arguments (evaluated after the now-simple receiver): bound in order
+                for a in mc.args.iter_mut() {
+                    if let Expr::Reference(rf) = a {
+                        if rf.mutability.is_some() && matches!(&*rf.expr, Expr::MethodCall(_) | Expr::Call(_)) {
+                            self.split_no += 1;
+                            let t = Ident::new(&format!("__vx_t{}", self.split_no), Span::call_site());
+                            let inner = &rf.expr;
+                            pre.push(parse_quote!(let mut #t = #inner;));
+                            rf.expr = Box::new(parse_quote!(#t));
+                            self.bump("R-LETSPLIT");
+                        }
+                    }
+                }
             }
+            _ => {}
         }
     }
 
@@ -483,6 +504,12 @@ impl<'a> VisitMut for Norm<'a> {
                     if let Some(init) = &mut l.init {
                         let mut pre: Vec<Stmt> = vec![];
                         self.letsplit_expr(&mut init.expr, &mut pre);
+                        out.extend(pre);
+                    }
+                } else if let Stmt::Expr(Expr::Assign(a), _) = &mut st {
+                    if matches!(&*a.left, Expr::Path(_) | Expr::Field(_)) {
+                        let mut pre: Vec<Stmt> = vec![];
+                        self.letsplit_expr(&mut a.right, &mut pre);
                         out.extend(pre);
                     }
                 }
